@@ -79,6 +79,7 @@ func e2Specs() []spec.Spec {
 	return []spec.Spec{
 		w("e2-default"),
 		w("e2-skip-b", C{Op: "SkipElementsContent", Names: []string{"b", "x"}}),
+		w("e2-skip-after-default", C{Op: "SkipElementsContent", Names: []string{"style", "x", "OBJECT", "my-y"}}, C{Op: "SkipElementsContent", Names: []string{"x", "span"}}, C{Op: "AllowElementsContent", Names: []string{"TITLE", "nosuch"}}),
 		w("e2-keep-object", C{Op: "AllowElementsContent", Names: []string{"object", "title"}}),
 		w("e2-pattern", C{Op: "AllowElementsMatching", Re: reMy}, attrsPat([]string{"id"}, "", reMy)),
 		w("e2-pattern-bare", C{Op: "AllowNoAttrs", Scope: "matching", OnRe: reMy}, attrsPat([]string{"id"}, "", reMyX)),
